@@ -56,7 +56,7 @@ Definition float_dst (i : inst) : bool :=
   match i_fmt i with
   | F_VOP2 => existsb (Z.eqb (i_op i)) [1; 2; 3; 5; 10; 11; 22; 23; 24; 59]
   | F_VOP3A => existsb (Z.eqb (i_op i)) [258; 261; 449; 459]
-  | F_VOP1 => existsb (Z.eqb (i_op i)) [5; 6]
+  | F_VOP1 => existsb (Z.eqb (i_op i)) [5; 6; 15; 28; 30]
   | _ => false
   end.
 Definition veq (fl : bool) (a b : Z) : bool := (a =? b) || (fl && f32_isnan a && f32_isnan b).
@@ -85,20 +85,39 @@ Definition lds_probes (a : arch) (st : state) (i : inst) : list Z :=
   | _ => []
   end.
 
-Definition agrees_f (fl : bool) (st : state) (p : pstate) : bool :=
+(** binary64 destinations (a VGPR pair): a NaN result is compared as a class -
+    the model's pair is a NaN and the recorded high dword is that of a quiet NaN
+    (Go arithmetic and conversions only produce quiet NaNs) *)
+Definition f64_dst (i : inst) : option Z :=
+  match i_fmt i with
+  | F_VOP3A => if (i_op i =? 640) || (i_op i =? 641) then Some (i_dst i - 256) else None
+  | F_VOP1 => if i_op i =? 16 then Some (i_dst i - 256) else None
+  | _ => None
+  end.
+Definition qnan_hi (v : Z) : bool := Z.land v 2146959360 =? 2146959360.
+Definition veq_g (fl : bool) (d64 : option Z) (st : state) (l r v : Z) : bool :=
+  veq fl (vgpr st l r) v ||
+  match d64 with
+  | Some d => f64_isnan (vgpr st l d + 4294967296 * vgpr st l (d + 1)) && ((r =? d) || ((r =? d + 1) && qnan_hi v))
+  | None => false
+  end.
+Fixpoint chkl (eqv : Z -> Z -> bool) (b : Z) (vs : list Z) : bool :=
+  match vs with [] => true | v :: t => eqv b v && chkl eqv (b + 1) t end.
+Definition agrees_g (fl : bool) (d64 : option Z) (st : state) (p : pstate) : bool :=
   (scc st =? p_scc p) && (vcc st =? p_vcc p) && (exec st =? p_exec p) && (m0 st =? p_m0 p) &&
   (pc st =? p_pc p) &&
   forallb (fun kv => sgpr st (fst kv) =? snd kv) (p_s p) &&
-  forallb (fun kv => veq fl (vgpr st (fst (fst kv)) (snd (fst kv))) (snd kv)) (p_v p) &&
-  forallb (fun cv => chk (veq fl) (fun l => vgpr st l (fst cv)) 0 (snd cv)) (p_vc p) &&
+  forallb (fun kv => veq_g fl d64 st (fst (fst kv)) (snd (fst kv)) (snd kv)) (p_v p) &&
+  forallb (fun cv => chkl (fun l v => veq_g fl d64 st l (fst cv) v) 0 (snd cv)) (p_vc p) &&
   forallb (fun bv => chk Z.eqb (mem st) (fst bv) (snd bv)) (p_mem p) &&
   forallb (fun bv => chk Z.eqb (lds st) (fst bv) (snd bv)) (p_lds p).
+Definition agrees_f (fl : bool) (st : state) (p : pstate) : bool := agrees_g fl None st p.
 Definition probes_ok (st : state) (p : pstate) (mp lp : list Z) : bool :=
   forallb (fun x => mem st x =? bytes_of (p_seed p) (p_mem p) x) mp &&
   forallb (fun x => lds st x =? bytes_of (p_seed p) (p_lds p) x) lp.
 Definition post_ok (c : case) (st' : state) : bool :=
   let st := to_state (c_pre c) in
-  agrees_f (float_dst (c_inst c)) st' (c_post c) &&
+  agrees_g (float_dst (c_inst c)) (f64_dst (c_inst c)) st' (c_post c) &&
   probes_ok st' (c_post c) (mem_probes (c_arch c) st (c_inst c)) (lds_probes (c_arch c) st (c_inst c)).
 Definition agrees (st : state) (p : pstate) : bool := agrees_f false st p.
 
